@@ -17,25 +17,12 @@ use prio::vdaf::{Aggregator, Collector};
 use pvh::engine::tape::{tape_alphabet, Tape};
 use pvh::engine::{fnv, par, Level, Run};
 use pvh::kit::ints::{addmod, modpow, IntConv, KitField};
+use pvh::kit::p3cases::*;
 use pvh::kit::vdafkit::{verify_report, Failure, Stage, VerifyOpts};
 use serde_json::json;
 use std::sync::Mutex;
 
 type P3<T> = Prio3<T, XofTurboShake128, 32>;
-
-struct Case<T: Type> {
-    name: String,
-    typ: T,
-    alg: u32,
-    meas: Vec<T::Measurement>,
-    /// per-measurement contribution to the aggregate, as integers
-    contrib: Box<dyn Fn(&T::Measurement) -> Vec<u128> + Send + Sync>,
-    /// library result -> integers (or f64 bits for Average)
-    result: Box<dyn Fn(&T::AggregateResult) -> Vec<u128> + Send + Sync>,
-    average: bool,
-    /// wire polynomial length P of the (single) gadget, for predicting refused query randomness
-    wire_poly_len: usize,
-}
 
 fn ctx_for(i: usize) -> Vec<u8> {
     match i % 3 {
@@ -224,141 +211,6 @@ where
         run.distinct(fnv(format!("{}/{na}/{np}/{tname}", case.name).as_bytes()));
     });
     run.count("refused_query_randomness_small_field", *refused.lock().unwrap());
-}
-
-// ---------------------------------------------------------------------------------------------
-// case builders, generic in the field
-fn bits_of(max: u128) -> usize {
-    (128 - max.leading_zeros()) as usize
-}
-fn int<F: KitField>(x: u128) -> F::Integer
-where
-    F::Integer: IntConv,
-{
-    <F::Integer as IntConv>::from_u128(x)
-}
-fn edge_ints(max: u128) -> Vec<u128> {
-    let b = bits_of(max);
-    let mut v = vec![0, 1, max, max - 1, max / 2, (1u128 << (b - 1)) - 1, 1u128 << (b - 1), max - (1u128 << (b - 1)) + 1];
-    v.retain(|x| *x <= max);
-    v.sort();
-    v.dedup();
-    v
-}
-
-fn count_case<F: KitField>() -> Case<Count<F>>
-where
-    F::Integer: IntConv,
-{
-    Case { name: format!("Count@{}", F::p()), typ: Count::new(), alg: 1, meas: vec![false, true], contrib: Box::new(|m| vec![*m as u128]), result: Box::new(|r| vec![r.to_u128()]), average: false, wire_poly_len: 2 }
-}
-fn sum_case<F: KitField>(max: u128) -> Case<Sum<F>>
-where
-    F::Integer: IntConv,
-{
-    let meas: Vec<u128> = if max <= 40 { (0..=max).collect() } else { edge_ints(max) };
-    Case { name: format!("Sum(max={max})@{}", F::p()), typ: Sum::new(int::<F>(max)).unwrap(), alg: 2, meas: meas.into_iter().map(int::<F>).collect(), contrib: Box::new(|m| vec![m.to_u128()]), result: Box::new(|r| vec![r.to_u128()]), average: false, wire_poly_len: (1 + bits_of(max)).next_power_of_two() }
-}
-fn average_case<F: KitField>(max: u128) -> Case<Average<F>>
-where
-    F::Integer: IntConv,
-{
-    let meas: Vec<u128> = if max <= 40 { (0..=max).collect() } else { edge_ints(max) };
-    Case { name: format!("Average(max={max})@{}", F::p()), typ: Average::new(int::<F>(max)).unwrap(), alg: 0xFFFF0000, meas: meas.into_iter().map(int::<F>).collect(), contrib: Box::new(|m| vec![m.to_u128()]), result: Box::new(|r| vec![r.to_bits() as u128]), average: true, wire_poly_len: (1 + bits_of(max)).next_power_of_two() }
-}
-fn vec_meas(max: u128, len: usize, l1: Option<u128>) -> Vec<Vec<u128>> {
-    // full domain when small, else edges
-    let dom = (max + 1).checked_pow(len as u32).filter(|d| *d <= 81);
-    let mut out: Vec<Vec<u128>> = vec![];
-    if let Some(d) = dom {
-        for i in 0..d {
-            let mut v = vec![];
-            let mut k = i;
-            for _ in 0..len {
-                v.push(k % (max + 1));
-                k /= max + 1;
-            }
-            out.push(v);
-        }
-    } else {
-        out.push(vec![0; len]);
-        out.push(vec![max; len]);
-        for i in 0..len.min(6) {
-            let mut v = vec![0; len];
-            v[i * (len - 1) / len.min(6).max(1)] = max;
-            out.push(v);
-            let mut w = vec![max; len];
-            w[i] = max / 2;
-            out.push(w);
-        }
-        out.push((0..len).map(|i| (i as u128 * 7 + 1) % (max + 1)).collect());
-        let mut v = vec![0; len];
-        v[len - 1] = 1;
-        out.push(v);
-    }
-    if let Some(bound) = l1 {
-        out.retain(|v| v.iter().sum::<u128>() <= bound);
-        // plus vectors exactly at the bound
-        let mut v = vec![0; len];
-        v[len - 1] = bound.min(max);
-        out.push(v);
-        let mut v = vec![0; len];
-        let mut rest = bound;
-        for x in v.iter_mut() {
-            let t = rest.min(max).min(rest / 2 + 1);
-            *x = t;
-            rest -= t;
-        }
-        out.push(v);
-    }
-    out.sort();
-    out.dedup();
-    out
-}
-fn sumvec_case<F: KitField>(max: u128, len: usize, chunk: usize) -> Case<SumVec<F, ParallelSum<F, Mul>>>
-where
-    F::Integer: IntConv,
-{
-    let calls = (bits_of(max) * len).div_ceil(chunk);
-    Case { name: format!("SumVec(max={max},len={len},chunk={chunk})@{}", F::p()), typ: SumVec::new(int::<F>(max), len, chunk).unwrap(), alg: 3, meas: vec_meas(max, len, None).into_iter().map(|v| v.into_iter().map(int::<F>).collect()).collect(), contrib: Box::new(|m: &Vec<F::Integer>| m.iter().map(|x| x.to_u128()).collect()), result: Box::new(|r: &Vec<F::Integer>| r.iter().map(|x| x.to_u128()).collect()), average: false, wire_poly_len: (1 + calls).next_power_of_two() }
-}
-fn histogram_case<F: KitField>(len: usize, chunk: usize) -> Case<Histogram<F, ParallelSum<F, Mul>>>
-where
-    F::Integer: IntConv,
-{
-    let meas: Vec<usize> = if len <= 12 { (0..len).collect() } else { vec![0, 1, len / 2, chunk.min(len - 1), (chunk + 1).min(len - 1), len - 2, len - 1] };
-    Case { name: format!("Histogram(len={len},chunk={chunk})@{}", F::p()), typ: Histogram::new(len, chunk).unwrap(), alg: 4, meas, contrib: Box::new(move |m| (0..len).map(|i| (i == *m) as u128).collect()), result: Box::new(|r: &Vec<F::Integer>| r.iter().map(|x| x.to_u128()).collect()), average: false, wire_poly_len: (1 + len.div_ceil(chunk)).next_power_of_two() }
-}
-fn multihot_case<F: KitField>(len: usize, maxw: usize, chunk: usize) -> Case<MultihotCountVec<F, ParallelSum<F, Mul>>>
-where
-    F::Integer: IntConv,
-{
-    let mut meas: Vec<Vec<bool>> = vec![];
-    if len <= 5 {
-        for i in 0..(1u32 << len) {
-            let v: Vec<bool> = (0..len).map(|k| (i >> k) & 1 == 1).collect();
-            if v.iter().filter(|b| **b).count() <= maxw {
-                meas.push(v);
-            }
-        }
-    } else {
-        meas.push(vec![false; len]);
-        for w in [1, maxw.min(len), maxw.min(len).saturating_sub(1)] {
-            meas.push((0..len).map(|i| i < w).collect());
-            meas.push((0..len).map(|i| i >= len - w).collect());
-        }
-        meas.sort();
-        meas.dedup();
-    }
-    let calls = (len + bits_of(maxw as u128)).div_ceil(chunk);
-    Case { name: format!("Multihot(len={len},maxw={maxw},chunk={chunk})@{}", F::p()), typ: MultihotCountVec::new(len, maxw, chunk).unwrap(), alg: 5, meas, contrib: Box::new(|m: &Vec<bool>| m.iter().map(|b| *b as u128).collect()), result: Box::new(|r: &Vec<F::Integer>| r.iter().map(|x| x.to_u128()).collect()), average: false, wire_poly_len: (1 + calls).next_power_of_two() }
-}
-fn l1_case<F: KitField>(max: u128, len: usize, chunk: usize) -> Case<L1BoundSum<F, ParallelSum<F, Mul>>>
-where
-    F::Integer: IntConv,
-{
-    let calls = (bits_of(max) * (len + 1)).div_ceil(chunk);
-    Case { name: format!("L1BoundSum(max={max},len={len},chunk={chunk})@{}", F::p()), typ: L1BoundSum::new(int::<F>(max), len, chunk).unwrap(), alg: 7, meas: vec_meas(max, len, Some(max)).into_iter().map(|v| v.into_iter().map(int::<F>).collect()).collect(), contrib: Box::new(|m: &Vec<F::Integer>| m.iter().map(|x| x.to_u128()).collect()), result: Box::new(|r: &Vec<F::Integer>| r.iter().map(|x| x.to_u128()).collect()), average: false, wire_poly_len: (1 + calls).next_power_of_two() }
 }
 
 fn main() {
